@@ -88,6 +88,17 @@ def merge_cover(total, part):
 
 def run(tier, replay=None):
     rep = vlib.Report(PID, tier)
+    try:
+        _run(rep, tier, replay)
+    except vlib.ToolError as e:
+        # a tool problem never hides a violation that was already established
+        if not rep.violations:
+            raise
+        vlib.log("tool error after violations were found (reported as violations): %s" % e)
+        rep.finish()
+
+
+def _run(rep, tier, replay):
     wd = vlib.workdir(PID)
     bins = vlib.cargo_build(["replay_udp", "drive_udp"])
     devs = vlib.open_deviations(PID)
@@ -173,7 +184,7 @@ def run(tier, replay=None):
     vlib.log("replay behaviours: %d behaviours, %d steps, %d fully conformant" % (summ["behaviours"], summ["behaviour_steps"], summ["behaviours_ok"]))
 
     missing = [c for c in NEED_COVER if not cover.get(c)]
-    if missing:
+    if missing and not rep.violations:
         raise vlib.ToolError("vacuous generator: never produced %s" % missing)
 
     # ---- 5. I->S: seeded random runs of the real manager validated by TLC
@@ -200,14 +211,16 @@ def run(tier, replay=None):
     merge_cover(cover, dsum.get("cover", {}))
     rep.add_samples([json.dumps(s) for s in dsum.get("samples", [])], 2)
 
-    # canary: the binding must reject a corrupted trace
-    canary = os.path.join(wd, "canary.ndjson")
-    where = corrupt_trace(trace, canary, seed)
-    cr = vlib.tlc_trace("Trace_UdpFlows", tcfg, PID, canary, timeout=600)
-    if cr["accepted"] or cr["consumed"] != where:
-        raise vlib.ToolError("canary: corrupted trace (event %d) was not rejected there (accepted=%s consumed=%s)"
-                             % (where, cr["accepted"], cr["consumed"]))
-    vlib.log("canary: corrupted event %d rejected (consumed %s)" % (where, cr["consumed"]))
+    # canary: the binding must reject a corrupted trace exactly at the corrupted event (self-test of the
+    # trace specification; only meaningful on a trace that is accepted as recorded)
+    if tr["accepted"]:
+        canary = os.path.join(wd, "canary.ndjson")
+        where = corrupt_trace(trace, canary, seed)
+        cr = vlib.tlc_trace("Trace_UdpFlows", tcfg, PID, canary, timeout=600)
+        if cr["accepted"] or cr["consumed"] != where:
+            raise vlib.ToolError("canary: corrupted trace (event %d) was not rejected there (accepted=%s consumed=%s)"
+                                 % (where, cr["accepted"], cr["consumed"]))
+        vlib.log("canary: corrupted event %d rejected (consumed %s)" % (where, cr["consumed"]))
 
     rep.cov["traces_validated_against_impl"] += total_edges + total_beh
     rep.cov["evaluations"] = total_edges + total_steps + dsum["events"]
